@@ -58,10 +58,14 @@ def small_dag(rng: random.Random, size: int, density: float):
             n = n.tagged(ImplStored())
         pool.append(n)
         interior.append(n)
-    k = rng.randint(1, 3)
-    outs = rng.sample(interior, min(k, len(interior)))
-    if rng.random() < 0.7:
-        outs.append(interior[-1])
+    # outputs: every node nothing uses (so that the whole graph is live) and up to two used ones
+    # (outputs that other outputs use); now and then a single output, the rest dead
+    used = {id(c) for n in interior for _, c in reflect.children(n)}
+    sinks = [n for n in interior if id(n) not in used]
+    if rng.random() < 0.15:
+        outs = [interior[-1]]
+    else:
+        outs = sinks + rng.sample(interior, min(rng.randint(0, 2), len(interior)))
     return pt.make_dict_of_named_arrays({f"o{i}": o for i, o in enumerate(outs)})
 
 
